@@ -2,10 +2,10 @@
 PROPS["C06"] = dict(
     props_file="Properties/C06.v",
     harnesses=[
-        dict(cmd="blobfn", mod="root", model="Model.BlobFn", quick=800, thorough=30000, shard=800,
+        dict(cmd="blobfn", mod="root", model="Model.BlobFn", quick=800, thorough=20000, shard=800,
              require=["fn.add", "fn.add.good", "fn.add.merge", "fn.super", "fn.writer", "fn.writer.pieces", "fn.parse.ok",
                       "fn.parse.err", "fn.walk.ok", "fn.walk.unaligned"]),
-        dict(cmd="blob", mod="root", model="Model.BlobRead", quick=144, thorough=8000, shard=72, race=400,
+        dict(cmd="blob", mod="root", model="Model.BlobRead", quick=144, thorough=4000, shard=72, race=400,
              require=["op.read", "op.cache", "op.evict", "op.check", "op.refresh", "op.expire", "cache.mem", "cache.dir",
                       "result.read.ok", "result.read.err", "read.across_eof", "read.from_cache_only", "mode.single",
                       "served.multi", "served.mpalways", "served.perm", "served.first", "served.squash", "served.whole",
